@@ -199,6 +199,14 @@ func (w *world) startMember(idx int, initPeers []peer.ID, staging bool, base str
 	rcfg.InitPeerset = initPeers
 	rcfg.WaitForLeaderTimeout = 20 * time.Second
 	rcfg.DataFolder = base + "/raft"
+	// every backup slot is already taken by an older, non-empty backup (a
+	// peer whose data was cleaned before): discarding the data of a removed
+	// peer that holds a snapshot must still work (the oldest backup goes)
+	rcfg.BackupsRotate = 1
+	if old := rcfg.DataFolder + ".old.0"; !exists(old) {
+		os.MkdirAll(old+"/snapshots", 0o700)
+		os.WriteFile(old+"/raft.db", []byte("older backup"), 0o600)
+	}
 	cons, err := raft.NewConsensus(h, rcfg, inmem.New(), staging)
 	if err != nil {
 		return nil, err
@@ -217,6 +225,8 @@ func (w *world) startMember(idx int, initPeers []peer.ID, staging bool, base str
 	m := &member{idx: idx, host: h, p: p, rcfg: rcfg, base: base, alive: true}
 	return m, nil
 }
+
+func exists(p string) bool { _, err := os.Stat(p); return err == nil }
 
 func (w *world) live() []*member {
 	var l []*member
